@@ -207,10 +207,17 @@ def _gen_one_message(rng, who, n, allow_until):
     kind = rng.choice(["chunked", "chunked", "length", "length", "none"] + (["until"] if allow_until else []))
     if kind == "chunked":
         spec = _rand_spec(rng); spec["tail"] = ""
-        head = (b"POST /m%d HTTP/1.1\r\nHost: h\r\nTransfer-Encoding: chunked\r\n\r\n" % n if who == "req"
-                else b"HTTP/1.1 200 OK\r\nTransfer-Encoding: chunked\r\n\r\n")
-        return head + build_wire(spec), {"body": h(b"".join(unh(c["data"]) for c in spec["chunks"])),
-                                         "trails": expected(spec)[-1]["trails"]}
+        enc = build_wire(spec)
+        body = b"".join(unh(c["data"]) for c in spec["chunks"])
+        te = b"Transfer-Encoding: " + rng.choice([b"chunked", b"chunked", b"Chunked"]) + b"\r\n"
+        hdrs = [te]
+        if rng.random() < 0.3:
+            # both framings announced: Transfer-Encoding overrides Content-Length (RFC 7230 3.3.3), whatever its value
+            cl = rng.choice([0, 1, len(body), max(0, len(enc) - rng.randint(1, 9)), len(enc), len(enc) + rng.randint(1, 20),
+                             rng.randint(0, len(enc) + 5)])
+            hdrs.insert(rng.choice([0, 1]), b"Content-Length: %d\r\n" % cl)
+        start = b"POST /m%d HTTP/1.1\r\nHost: h\r\n" % n if who == "req" else b"HTTP/1.1 200 OK\r\n"
+        return start + b"".join(hdrs) + b"\r\n" + enc, {"body": h(body), "trails": expected(spec)[-1]["trails"]}
     if kind == "length":
         data = _rand_data(rng) * rng.choice([1, 2])
         head = (b"PUT /m%d HTTP/1.1\r\nContent-Length: %d\r\n\r\n" % (n, len(data)) if who == "req"
@@ -234,9 +241,8 @@ def _gen_hist(rng):
         expects.append(e)
     first_cut = rng.choice([0, rng.randrange(1, len(wire)), rng.randrange(1, len(wire)), len(wire)])
     ops = _hist_ops(rng, wire, first_cut)
-    if nmsg > 1:
-        # parseMessage forgets .closed when the next message starts; Client repeats close() every pass while cut off
-        ops += [["close"], ["parse"]]
+    # parseMessage forgets .closed when a message starts; Client repeats close() every pass while cut off
+    ops += [["close"], ["parse"]]
     case = {"kind": "hist", "who": who, "ops": ops, "expect": expects}
     if rng.random() < 0.15:                  # truncated: closure with the last message incomplete (model comparison only)
         k = rng.randrange(1, len(wire))
@@ -302,6 +308,19 @@ def directed():
     out.append(_hist_case("resp", [rseq[:70], "parse", rseq[70:], "parse"],
                           [{"body": h(b"first"), "trails": [[h(b"t"), h(b"1")]]}, {"body": h(b"second"), "trails": []},
                            {"body": h(b"ok"), "trails": []}]))
+    # Transfer-Encoding: chunked together with Content-Length: N (both orders; N smaller / equal / larger than the
+    # encoded length, N = decoded length): the chunked coding is what frames the body (seeded C17-7)
+    enc = b"3;x=y\r\nabc\r\n4\r\ndefg\r\n0\r\nT: 1\r\n\r\n"
+    expb = [{"body": h(b"abcdefg"), "trails": [[h(b"t"), h(b"1")]]}, {"body": "", "trails": []}]
+    for who, start, nxt in (("req", b"POST /x HTTP/1.1\r\n", b"GET /n HTTP/1.1\r\n\r\n"),
+                            ("resp", b"HTTP/1.1 200 OK\r\n", b"HTTP/1.1 204 No\r\n\r\n")):
+        for cl in (0, 3, 7, len(enc) - 4, len(enc), len(enc) + 9):
+            for order in (0, 1):
+                hd = [b"Transfer-Encoding: chunked\r\n", b"Content-Length: %d\r\n" % cl]
+                if order:
+                    hd.reverse()
+                w = start + b"".join(hd) + b"\r\n" + enc + nxt
+                out.append(_hist_case(who, [w[:30], "parse", w[30:], "parse"], expb))
     # closed while idle, then a healthy message whose head is split at a line end (finding D42, repo 0a30e14)
     out.append(_hist_case("resp", ["parse", "close", "parse", "close", b"HTTP/1.1 200 OK\r\n", "parse",
                                    b"Content-Length: 2\r\n\r\n", "parse", b"ok", "parse"], [{"body": h(b"ok"), "trails": []}]))
